@@ -939,6 +939,331 @@ def construction_sequences(rng):
     return fails, n, len(live)
 
 
+def definition_sequences(rng):
+    """Construction-time laziness for EVERY public constructor that accepts an expression, tripwire
+    bodies everywhere: option namespaces (decorator, implicit / nested / renamed sub-namespaces, bare
+    dataset members, Option.auto(default=...), Option.auto(...) >> f, ds >> f, explicit Option members with
+    default / default_factory / domain), Option forms, dataset / abstractdataset decorator forms (defaults=,
+    where(), nocache, cache factories, an expression as definition), dataset classes (incl. inheritance),
+    interfaces (dataset-valued members, expression dispatch), pipelines and the labrea.functions helpers with
+    dataset-valued arguments, templates, collections, conditionals, caches, logging, computations, Overloaded;
+    then reading what a definition produced (__doc__, repr, str, hash, ==, copy, attribute / item access).
+    Nothing may run.  Afterwards: an Option's default runs exactly when its key is absent.
+    Returns (failures, number of sequences, number of live checks)"""
+    import copy
+    import labrea
+    import labrea.functions as F
+    from labrea import (Option, Template, Value, abstractdataset, dataset, datasetclass, implements, interface, pipeline_step)
+    from labrea.application import FunctionApplication, PartialApplication
+    from labrea.cache import Cached, MemoryCache, NoCache
+    from labrea.computation import CallbackEffect, ChainedEffect, Computation
+    from labrea.conditional import CaseWhen
+    from labrea.logging import Logged, LogEffect
+    from labrea.overload import Overloaded
+    from labrea.pipeline import Pipeline, PipelineStep
+    from labrea.types import Evaluatable
+    ran = []
+    made = []          # (name, object) of everything a definition produced: read back afterwards
+    counter = [0]
+
+    def ds(name, ret=None):
+        """a fresh dataset whose body is a tripwire"""
+        def f():
+            ran.append(name)
+            return name if ret is None else ret
+        f.__name__ = f.__qualname__ = name
+        return dataset(f)
+
+    def fn0(name, ret=None):
+        def f():
+            ran.append(name)
+            return name if ret is None else ret
+        f.__name__ = f.__qualname__ = name
+        return f
+
+    def fn1(name, ret=None):
+        def f(x):
+            ran.append(name)
+            return (name, x) if ret is None else ret
+        f.__name__ = f.__qualname__ = name
+        return f
+
+    fails, live, n = [], [], 0
+
+    def step(name, thunk):
+        nonlocal n
+        n += 1
+        ran.clear()
+        with Recorder() as rec:
+            try:
+                r = thunk()
+            except Exception as e:  # a definition must not fail either
+                fails.append(dict(desc=f"definition sequence '{name}' raised", error=repr(e)))
+                return None
+        if ran or rec.seen:
+            fails.append(dict(desc=f"definition sequence '{name}' ran a body / issued an evaluation request",
+                              ran=list(ran), requests=rec.seen[:6]))
+        if r is not None:
+            for i, x in enumerate(r if isinstance(r, tuple) else (r,)):
+                made.append((f"{name}#{i}", x))
+        return r
+
+    lit = rng.randint(1, 9)
+
+    # ---- option namespaces
+    def make_ns():
+        @Option.namespace
+        class PKG:
+            """a package namespace"""
+            N = ds("ns.N", 5)                                            # bare dataset -> Option('PKG.N', default=<dataset>)
+            A = Option.auto(default=ds("ns.A", 7), doc="an automatic option")
+            T = Option.auto(default=ds("ns.T", 8), doc="transformed") >> fn1("ns.T.step")
+            D = Option.auto(default=ds("ns.D", 1), domain=ds("ns.D.domain", [1, 2]), type=int)
+            F_ = ds("ns.F.src", 2) >> fn1("ns.F.step")                   # ds >> f as a default
+            O = Option("O", default=ds("ns.O", 3), domain=ds("ns.O.domain", [3, 4]), doc="explicit member")
+            G = Option("G", default_factory=fn0("ns.G.factory", 9))
+            C = FunctionApplication(fn0("ns.C.body", 4))
+            TPL = Template("{PKG.LIT}-{:p:}", p=ds("ns.TPL.param", "p"))
+            LIT = lit
+            S = "x{PKG.LIT}"
+            ANN: int
+
+            class SUB:                                                    # implicit sub-namespace
+                M = Option.auto(default=ds("ns.SUB.M", 11), doc="sub option")
+                K = ds("ns.SUB.K", 12)
+
+                class DEEP:
+                    Z = ds("ns.SUB.DEEP.Z", 13) >> fn1("ns.SUB.DEEP.Z.step")
+                    Y = Option.auto(default=ds("ns.SUB.DEEP.Y", 14))
+
+            @Option.namespace("RE-NAMED")
+            class RENAMED:                                                # explicit sub-namespace, custom name
+                R = ds("ns.RENAMED.R", 15)
+                Q = Option.auto(default=ds("ns.RENAMED.Q", 16), doc="q") >> fn1("ns.RENAMED.Q.step")
+        return PKG
+    PKG = step("@Option.namespace with computed member defaults, implicit / nested / renamed sub-namespaces", make_ns)
+    if PKG is not None:
+        members = step("namespace member access, item access, composition", lambda: (
+            PKG.N, PKG.A, PKG.T, PKG.D, PKG["O"], PKG.G, PKG.C, PKG.TPL, PKG.SUB, PKG.SUB.M, PKG.SUB.K, PKG.SUB.DEEP.Z,
+            PKG.SUB.DEEP.Y, PKG.RENAMED.R, PKG.RENAMED.Q, PKG.N >> str, PKG.SUB.M.apply(fn1("ns.after")),
+            labrea.switch(PKG.LIT, {lit: PKG.N}, PKG.SUB.K), dataset(fn0("ns.user"), defaults={}), PKG.ANN))
+        step("reading the namespace documentation", lambda: (PKG.__doc__ or "") + (PKG.SUB.__doc__ or "") + (PKG.N.__doc__ or "") and None)
+
+        def make_ns_user():
+            def body(a=PKG.N, b=PKG.SUB.K, c=PKG.RENAMED.Q):
+                ran.append("ns.user2")
+                return (a, b, c)
+            return dataset(body)
+        user = step("@dataset over namespace members", make_ns_user)
+        present = {"PKG": {"N": 1, "A": 1, "T": 1, "D": 1, "O": 3, "G": 1, "SUB": {"M": 1, "K": 1, "DEEP": {"Z": 1, "Y": 1}},
+                           "RE-NAMED": {"R": 1, "Q": 1}}}
+        live += [
+            ("namespace member, key present", PKG.N, present, []),
+            ("namespace auto member, key present", PKG.A, present, []),
+            ("namespace transformed auto member, key present", PKG.T, present, ["ns.T.step"]),
+            ("nested namespace member, key present", PKG.SUB.DEEP.Y, present, []),
+            ("renamed namespace member, key present", PKG.RENAMED.Q, present, ["ns.RENAMED.Q.step"]),
+            ("explicit Option member with domain, key present", PKG["O"], present, ["ns.O.domain"]),
+            ("default_factory member, key present", PKG.G, present, []),
+            ("namespace member, key absent", PKG.N, {}, ["ns.N"]),
+            ("namespace auto member, key absent", PKG.A, {"PKG": {"N": 1}}, ["ns.A"]),
+            ("nested namespace member, key absent", PKG.SUB.M, {"PKG": {"SUB": {"K": 1}}}, ["ns.SUB.M"]),
+            ("deep namespace member, key absent", PKG.SUB.DEEP.Y, {}, ["ns.SUB.DEEP.Y"]),
+            ("renamed namespace member, key absent", PKG.RENAMED.R, {}, ["ns.RENAMED.R"]),
+            ("default_factory member, key absent", PKG.G, {}, ["ns.G.factory"]),
+        ]
+        if user is not None:
+            live.append(("dataset over namespace members, two keys present", user,
+                         {"PKG": {"N": 1, "RE-NAMED": {"Q": 2}}}, ["ns.SUB.K", "ns.RENAMED.Q.step", "ns.user2"]))
+
+    # ---- Option forms
+    opts = step("Option(default=) / default_factory / domain / type / doc / Option[int]", lambda: (
+        Option("A", ds("opt.default")), Option("A", default=ds("opt.default2") >> fn1("opt.default2.step")),
+        Option("A", default_factory=fn0("opt.factory")), Option("A", ds("opt.d3"), domain=ds("opt.domain"), type=int, doc="doc"),
+        Option[int]("A", ds("opt.d4")), Option("A.B.C", labrea.coalesce(Option("Z"), ds("opt.d5"))),
+        labrea.WithOptions(Option("A", ds("opt.d6")), {"B": 1}), labrea.WithDefaultOptions(Option("A", ds("opt.d7")), {"A": 1})))
+    if opts is not None:
+        live.append(("Option default, key present", opts[0], {"A": 1}, []))
+        live.append(("Option default_factory, key present", opts[2], {"A": 1}, []))
+        live.append(("Option default, key absent", opts[0], {}, ["opt.default"]))
+        live.append(("Option default_factory, key absent", opts[2], {}, ["opt.factory"]))
+        live.append(("WithDefaultOptions supplies the key", opts[7], {}, []))
+
+    # ---- dataset decorator forms
+    def make_ds_forms():
+        def body(x, y=Option("Y", ds("dsf.ydefault"))):
+            ran.append("dsf.body")
+            return (x, y)
+        a = dataset(body, defaults={"x": ds("dsf.x")})
+        b = dataset.where(x=ds("dsf.where.x"))(body)
+        c = dataset.nocache(fn0("dsf.nocache"))
+        d = dataset(cache=MemoryCache, effects=[fn1("dsf.effect"), CallbackEffect(fn1("dsf.effect2"))],
+                    callback=pipeline_step(fn1("dsf.cb")) + fn1("dsf.cb2"), dispatch=Option("D", ds("dsf.dispatchdefault")))(fn0("dsf.d"))
+        e = abstractdataset(dispatch="D")(fn0("dsf.abstract"))
+        e.register("x", ds("dsf.e.x"))
+        e.register("y", Option("Q", ds("dsf.e.ydefault")))
+        f = dataset(ds("dsf.inner") >> fn1("dsf.inner.step"))          # an expression as the definition
+        g = a.with_options({"Y": 1}).with_default_options({"Z": 2})
+        a.set_cache(NoCache())
+        a.set_cache(MemoryCache)
+        a.add_effect(fn1("dsf.a.effect"))
+        a.disable_effects()
+        a.enable_effects()
+        a.set_dispatch(Option("D2", ds("dsf.a.dispatchdefault")))
+        a.overload(["p", "q"])(fn0("dsf.a.pq"))
+        return a, b, c, d, e, f, g
+    forms = step("dataset decorator forms: defaults=, where(), nocache, cache factory, effects, callback, expression definition, "
+                 "register / overload / set_cache / add_effect / set_dispatch", make_ds_forms)
+    if forms is not None:
+        live.append(("abstract dataset: the registered implementation only", forms[4], {"D": "x"}, ["dsf.e.x"]))
+        live.append(("dataset with an expression-valued dispatch default, overload selected", forms[0], {"D2": "p"}, ["dsf.a.pq", "dsf.a.effect"]))
+
+    # ---- dataset classes
+    def make_dcs():
+        @datasetclass
+        class Base:
+            x: str = ds("dc.x")
+            y: int = Option("Y", ds("dc.ydefault"))
+            z: int = 3
+            w = ds("dc.w") >> fn1("dc.w.step")
+
+        class Plain:
+            u: str = ds("dc.u")
+
+        @datasetclass
+        class Child(Plain):
+            v: str = ds("dc.v")
+        return Base, Child
+    dcs = step("datasetclass definitions (members: dataset, Option with a dataset default, constants, pipelines; inheritance)", make_dcs)
+    if dcs is not None:
+        live.append(("datasetclass, key present", dcs[0], {"Y": 1}, ["dc.x", "dc.w", "dc.w.step"]))
+        live.append(("inherited datasetclass", dcs[1], {}, ["dc.u", "dc.v"]))
+
+    # ---- interfaces
+    def make_ifaces():
+        @interface(Option("IMPL", ds("if.dispatchdefault")))
+        class I:
+            a: str
+            b = ds("if.b")                       # a dataset-valued member (gets the interface's dispatch)
+            c = Option("C", ds("if.cdefault"))   # an expression-valued member
+            d = 4
+
+            def e(x=ds("if.e.arg")):
+                ran.append("if.e")
+                return x
+
+        @I.implementation(["one", "uno"])
+        class One:
+            a = ds("if.One.a")
+            b = ds("if.One.b") >> fn1("if.One.b.step")
+
+            def e():
+                ran.append("if.One.e")
+                return "e"
+
+        @implements(I, alias="two")
+        class Two:
+            a = "const"
+            c = ds("if.Two.c")
+        return I, One, Two
+    ifs = step("interface with expression dispatch, dataset-valued and expression-valued members; implementations", make_ifaces)
+    if ifs is not None:
+        live.append(("interface member through an implementation", ifs[0].b, {"IMPL": "uno"}, ["if.One.b", "if.One.b.step"]))
+        live.append(("interface default member under another implementation", ifs[0].b, {"IMPL": "two"}, ["if.b"]))
+        live.append(("interface expression member, key present", ifs[0].c, {"IMPL": "one", "C": 1}, []))
+
+    # ---- pipelines and helper steps with dataset-valued arguments
+    def make_pipes():
+        def s(x, p=ds("pl.param"), q=Option("Q", ds("pl.qdefault"))):
+            ran.append("pl.s")
+            return (x, p, q)
+        st = pipeline_step(s)
+        p = st + fn1("pl.fn") + PipelineStep(ds("pl.stepexpr", fn1("pl.stepexpr.fn")), "named") + Pipeline() + Pipeline(st)
+        q = p
+        q += st
+        helpers = (F.add(ds("pl.add")), F.subtract(ds("pl.sub")), F.multiply(ds("pl.mul")), F.left_multiply(ds("pl.lmul")),
+                   F.divide_by(ds("pl.div")), F.divide_into(ds("pl.divinto")), F.modulo(ds("pl.mod")), F.map(ds("pl.map")),
+                   F.filter(ds("pl.filter")), F.reduce(ds("pl.reduce"), ds("pl.reduce.init")), F.into(ds("pl.into")),
+                   F.flatmap(ds("pl.flatmap")), F.map_items(ds("pl.mi")), F.map_keys(ds("pl.mk")), F.map_values(ds("pl.mv")),
+                   F.filter_items(ds("pl.fi")), F.filter_keys(ds("pl.fk")), F.filter_values(ds("pl.fv")), F.concat(ds("pl.concat")),
+                   F.append(ds("pl.append")), F.intersect(ds("pl.isect")), F.union(ds("pl.union")), F.difference(ds("pl.diff")),
+                   F.symmetric_difference(ds("pl.sdiff")), F.get(ds("pl.get"), ds("pl.get.default")),
+                   F.get_from(ds("pl.getfrom"), ds("pl.getfrom.default")), F.merge(ds("pl.merge")), F.instance_of(ds("pl.type")),
+                   F.all(ds("pl.all1"), ds("pl.all2")), F.any(ds("pl.any1"), ds("pl.any2")), F.invert(ds("pl.invert")),
+                   F.eq(ds("pl.eq")), F.ne(ds("pl.ne")), F.gt(ds("pl.gt")), F.ge(ds("pl.ge")), F.lt(ds("pl.lt")), F.le(ds("pl.le")),
+                   F.has_remainder(ds("pl.hr1"), ds("pl.hr2")), F.is_in(ds("pl.isin")), F.is_not_in(ds("pl.isnotin")),
+                   F.one_of(ds("pl.oneof"), 1), F.none_of(ds("pl.noneof"), 1), F.contains(ds("pl.contains")),
+                   F.does_not_contain(ds("pl.dnc")), F.intersects(ds("pl.intersects")), F.disjoint_from(ds("pl.disjoint")),
+                   F.ensure(ds("pl.ensure")), F.get_attribute(ds("pl.attr")), F.call_method(ds("pl.method"), ds("pl.method.arg")),
+                   F.partial(fn1("pl.partial"), ds("pl.partial.arg")))
+        whole = Pipeline()
+        for h in helpers[:-1]:
+            whole += h
+        return (st, p, q, ds("pl.src") >> p, ds("pl.src2").apply(q), whole, ds("pl.src3") >> whole) + helpers
+    step("pipeline_step with dataset-valued parameters, +, +=, >>, every labrea.functions helper with dataset-valued arguments", make_pipes)
+
+    # ---- every other public constructor
+    def make_rest():
+        sw = labrea.Switch(ds("r.sw.dispatch"), {1: ds("r.sw.1"), "a": ds("r.sw.a")}, ds("r.sw.default"))
+        cw = labrea.case(ds("r.case.dispatch")).when(ds("r.case.cond"), ds("r.case.res")).otherwise(ds("r.case.default"))
+        cw2 = labrea.case(ds("r.case2.dispatch")).otherwise(ds("r.case2.default")).when(fn1("r.case2.pred"), ds("r.case2.res"))
+        cw3 = CaseWhen(ds("r.case3.dispatch"), [(Value(fn1("r.case3.pred")), ds("r.case3.res"))], ds("r.case3.default"))
+        ov = Overloaded(ds("r.ov.dispatch"), {1: ds("r.ov.1")}, ds("r.ov.default"))
+        ov.register(2, ds("r.ov.2"))
+        m = labrea.Map(ds("r.map.body"), {"K": ds("r.map.iter"), "J.X": labrea.Iter(ds("r.map.i1"), ds("r.map.i2"))})
+        return (sw, cw, cw2, cw3, ov, ov.switch, m, m.values,
+                labrea.Coalesce(ds("r.co.1"), ds("r.co.2")), labrea.coalesce(Option("A"), ds("r.co.3")),
+                labrea.Iter(ds("r.iter.1")), labrea.evaluatable_list(ds("r.l.1"), ds("r.l.2")), labrea.evaluatable_tuple(ds("r.t.1")),
+                labrea.evaluatable_set(ds("r.s.1")), labrea.evaluatable_dict({"a": ds("r.d.a"), 1: ds("r.d.1")}),
+                Template("{A}{:x:}{:y:}", x=ds("r.tpl.x"), y=Template("{:z:}", z=ds("r.tpl.z"))),
+                labrea.cached(ds("r.cached")), labrea.cached(ds("r.cached2"), MemoryCache()), Cached(ds("r.cached3"), NoCache()),
+                Logged(ds("r.logged"), 20, "n", "m"), Computation(ds("r.comp"), ChainedEffect(CallbackEffect(ds("r.comp.eff")), LogEffect(20, "n", "m"))),
+                FunctionApplication(fn1("r.fa"), ds("r.fa.arg")), FunctionApplication.lift(fn1("r.fa2"), x=ds("r.fa2.arg")),
+                PartialApplication(fn1("r.pa"), ds("r.pa.arg")), PartialApplication.lift(lambda x, y=ds("r.pa2.arg"): (x, y)),
+                Evaluatable.ensure(ds("r.ensure")), Evaluatable.unit(fn0("r.unit")), Value(ds("r.value")),
+                ds("r.bind").bind(lambda v: ds("r.bind.inner")), ds("r.result").result, ds("r.rshift") >> ds("r.rshift.fn", fn1("r.rshift.fn.fn")))
+    step("Switch / case (both chaining orders) / CaseWhen / Overloaded / Map / Map.values / coalesce / collections / Template / cached / "
+         "Logged / Computation / FunctionApplication / PartialApplication / ensure / unit / bind / result / >>", make_rest)
+
+    # ---- reading what the definitions produced
+    def read_back():
+        for name, x in made:
+            for what, f in (("repr", repr), ("str", str), ("doc", lambda v: getattr(v, "__doc__", None)),
+                            ("name", lambda v: (getattr(v, "__name__", None), getattr(v, "__qualname__", None))),
+                            ("hash", hash), ("eq", lambda v: (v == v, v != made[0][1])), ("copy", copy.copy), ("bool", bool),
+                            ("isinstance", lambda v: isinstance(v, Evaluatable))):
+                before = len(ran)
+                try:
+                    f(x)
+                except Exception:
+                    pass            # an unhashable / uncopyable object is not this property's business
+                if len(ran) != before:
+                    raise AssertionError(f"{what}() of the object defined by '{name}' ran {ran[before:]}")
+    n_made = len(made)
+    ran.clear()
+    with Recorder() as rec:
+        try:
+            read_back()
+        except AssertionError as e:
+            fails.append(dict(desc="reading back a defined object (repr / str / __doc__ / hash / == / copy) ran a body", error=str(e)))
+    if rec.seen:
+        fails.append(dict(desc="reading back a defined object (repr / str / __doc__ / hash / == / copy) issued an evaluation request",
+                          requests=rec.seen[:6]))
+    n += n_made
+
+    # ---- the tripwires are live, and run exactly on the selected path
+    for name, obj, o, expected in live:
+        ran.clear()
+        try:
+            obj(o) if not isinstance(obj, type) else obj.evaluate(o)
+        except Exception as e:
+            fails.append(dict(desc=f"evaluating '{name}' after its definition failed", error=repr(e)))
+            continue
+        if sorted(set(ran)) != sorted(set(expected)):
+            fails.append(dict(desc=f"evaluating '{name}' ran {sorted(set(ran))}, the selected path is {sorted(set(expected))}"))
+    return fails, n, len(live)
+
+
 # ============================================================================ run / replay
 
 def check_scenario(scn, memo=None):
@@ -1056,6 +1381,11 @@ def run(ctx):
     fails, nseq, nlive = construction_sequences(ctx.rng)
     for f in fails:
         violations.append(dict(f, finding=None, kind="construction-sequence"))
+    dfails, dseq, dlive = definition_sequences(ctx.rng)
+    for f in dfails:
+        violations.append(dict(f, finding=None, kind="definition-sequence"))
+    nseq += dseq
+    nlive += dlive
     tot["construction_sequences"] = nseq
     tot["construction_live_checks"] = nlive
     # de-duplicate by description (one replay per kind is enough)
@@ -1094,6 +1424,9 @@ def replay(ctx, payload):
     kind = payload.get("kind")
     if kind == "construction-sequence":
         fails, _, _ = construction_sequences(ctx.rng)
+        return bool(fails), dict(failures=fails[:5])
+    if kind == "definition-sequence":
+        fails, _, _ = definition_sequences(ctx.rng)
         return bool(fails), dict(failures=fails[:5])
     if "scenario_repr" not in payload:
         return False, dict(note="no failing input recorded (see 'broken' in the replay file)")
